@@ -32,6 +32,29 @@ Lemma newton_test_zero_slope root xl xh F :
   (0 < ((root - xh) * 0 - F) * ((root - xl) * 0 - F) <-> F <> 0).
 Proof. split; intros; nra. Qed.
 
+(* the range test may be written with the product itself or with the product of the signs (repo: the sign form, which cannot
+   underflow); over R the two are equivalent *)
+Lemma sign_product_test (a b : R) :
+  Rltb 0 ((if Rltb 0 a then 1 else if Rltb a 0 then - (1) else 0) * (if Rltb 0 b then 1 else if Rltb b 0 then - (1) else 0))
+  = Rltb 0 (a * b).
+Proof.
+  assert (Hs : forall x y, (0 < x * y) <-> ((0 < x /\ 0 < y) \/ (x < 0 /\ y < 0))).
+  { intros x y. split.
+    - intros H. destruct (Rlt_dec 0 x) as [Hx|Hx]; [left|right].
+      + split; [exact Hx|]. destruct (Rlt_dec 0 y); [assumption|]. exfalso. nra.
+      + assert (x < 0) by (destruct (Req_dec x 0); [subst; lra | lra]).
+        split; [assumption|]. destruct (Rlt_dec y 0); [assumption|]. exfalso. nra.
+    - intros [[? ?]|[? ?]]; nra. }
+  unfold Rltb at 1 6.
+  destruct (Rlt_dec 0 (a * b)) as [H|H]; [apply Hs in H | rewrite Hs in H].
+  - destruct H as [[Ha Hb]|[Ha Hb]]; unfold Rltb;
+    destruct (Rlt_dec 0 a), (Rlt_dec a 0), (Rlt_dec 0 b), (Rlt_dec b 0); try lra;
+    match goal with |- (if ?d then _ else _) = _ => destruct d end; try reflexivity; exfalso; lra.
+  - unfold Rltb;
+    destruct (Rlt_dec 0 a), (Rlt_dec a 0), (Rlt_dec 0 b), (Rlt_dec b 0); try (exfalso; tauto); try lra;
+    match goal with |- (if ?d then _ else _) = _ => destruct d end; try reflexivity; exfalso; try lra; tauto.
+Qed.
+
 (* ---------- the regenerated loop body, characterised ---------- *)
 Ltac unfold_carry := unfold c_root, c_dx, c_dxOld, c_F, c_DF, c_xl, c_xh, c_conv, c_i in *.
 
@@ -61,7 +84,7 @@ Section Loop.
   Proof.
     destruct c as [[[[[[[[root dx] dxOld] F] DF] xl] xh] cv] i].
     unfold bisect_chosen, body, loop_body, bisection_step, newton_step, fdf, fdf_of. unfold_carry.
-    unfold_num. q2r.
+    unfold_num. q2r. try unfold nsign. unfold_num. q2r. rewrite ?sign_product_test.
     match goal with |- context [if orb ?a ?b then _ else _] => destruct a eqn:E1; destruct b eqn:E2 end; cbn [orb];
     try apply Rltb_true in E1; try apply Rltb_false in E1; try apply Rltb_true in E2; try apply Rltb_false in E2.
     all: repeat split; intros; try tauto; try lra; try reflexivity;
@@ -622,7 +645,7 @@ Proof.
   repeat (rb_one; cbn [negb andb orb]).
   unfold zero_over_zero. unfold_carry. unfold_num. q2r.
   repeat (rb_one; cbn [negb andb orb]).
-  unfold body, loop_body, bisection_step, newton_step. unfold_num. q2r.
+  unfold body, loop_body, bisection_step, newton_step. unfold_num. q2r. try unfold nsign. unfold_num. q2r.
   repeat (rb_one; cbn [negb andb orb]).
   cbn [wloop cond loop_cond]. unfold_num. q2r.
   repeat (rb_one; cbn [negb andb orb]).
